@@ -523,14 +523,12 @@ def run_tab_loop(case):
     if not ok:
         return res
     last_eg = None
-    n_eg_since = 0
     k = nongreedy = 0
     for e in tr.events:
         if e["k"] == "eg":
-            n_eg_since += 1
-            # SARSA's second evaluation (next action) follows the step
-            last_eg = e if not (algo == "sarsa" and n_eg_since == 1 and k > 0) \
-                else last_eg
+            # the most recent policy evaluation decides the next step (SARSA may
+            # carry the action it evaluated for the successor - that is valid)
+            last_eg = e
             if abs(e["epsilon"] - eps) > 1e-9:
                 res.violation(f"C13/loop/epsilon/{algo}", f"policy called with "
                               f"epsilon {e['epsilon']}, configured {eps}")
@@ -543,8 +541,8 @@ def run_tab_loop(case):
             if int(e["action"]) != last_eg["action"] or last_eg["obs"] != e["prev"]:
                 res.violation(f"C13/loop/action_not_executed/{algo}",
                               f"step {k}: executed action {e['action']} in state "
-                              f"{e['prev']}, selected {last_eg['action']} for state "
-                              f"{last_eg['obs']}")
+                              f"{e['prev']}; the latest policy evaluation selected "
+                              f"{last_eg['action']} for state {last_eg['obs']}")
                 return res
             row = last_eg["row"]
             if row[last_eg["action"]] != row.max():
@@ -555,8 +553,6 @@ def run_tab_loop(case):
                                   f"{last_eg['action']} for values {row.tolist()}")
                     return res
             k += 1
-            n_eg_since = 0
-            last_eg = None
             res.see("loop_steps_checked")
     if eps > 0:
         sd = np.sqrt(k * eps * (1 - eps))
